@@ -189,7 +189,8 @@ def shared_options_case(case):
         want = observe.run(text, ["-i", arg] if arg else [], name="a")
         if want["error"]:
             return [], {"labels": ["base-error"]}
-        options.titrate_only = parse_res_list(arg) if arg else None
+        # the list as an API user assigns it: tuples in the order given (not passed through the option parser)
+        options.titrate_only = [(c, int(n), i) for c, n, i in listed] if listed is not None else None
         parameters = read_parameter_file(options.parameters, Parameters())
         mol = MolecularContainer(parameters, options)
         mol = read_molecule_file("shared.pdb", mol, stream=io.StringIO(text))
@@ -361,7 +362,7 @@ def run_shard(ctx):
             if draw(st.integers(0, 4)) == 0:
                 lists.append(None)
             else:
-                lists.append([list(r) for r in ids if draw(st.booleans())] or [list(ids[0])])
+                lists.append(list(draw(st.permutations([list(r) for r in ids if draw(st.booleans())] or [list(ids[0])]))))
         return s, pdbio.write(entries), lists
 
     def shared_body(t):
